@@ -295,4 +295,41 @@ PROPS = {
         'trusted': ["H-CLOCK: one clock reading per method evaluation; no int64 overflow; float64 Duration.Seconds() modelled as truncating division"],
         'assumptions': ["H-CLOCK", "Go time.Time/Duration arithmetic modelled as unbounded Int nanoseconds (translator rule, validated by the synctest grid)"],
     },
+
+    'C18': {
+        'proofs': ['Ww.Proofs.C18'],
+        'gen_sections': ['LogSites'],
+        'drivers': [{'name': 'c20'}, {'name': 'hist'}, {'name': 'c02'}, {'name': 'c13'}, {'name': 'cook'}, {'name': 'fault', 'timeout': 1500}],
+        'reasons': ['C18.'],
+        'class_fields': {'logscan': ['where', 'kind', 'found'], 'start20': ['key', 'jwk', 'secret', 'redissecret', 'viaenv', 'listening']},
+        'nontrivial': _merge({k: (lambda f: False) for k in ['hstep', 'hstart', 'hafter', 'cb', 'login13', 'fresh13', 'setcookie', 'jar', 'retrychain', 'retryreset', 'ratelimit', 'fault', 'faultdry']},
+                             {'logscan': lambda f: True, 'start20': lambda f: f.get('redissecret') != 'none' or f.get('secret') == '1' or f.get('key') == 'ok'}),
+        'rule': "Monitor: logrus captured process-wide at TRACE level while the hist, c02, c13, cook and fault drivers run (histories, callback lattice, login visits, cookie/error paths, fault injection); every secret the harness learns "
+                "(tokens issued by the fake provider, code verifiers, client assertions, client secret, every Set-Cookie value, session data keys in raw/base64/hex, the deployment key) is searched in everything logged. "
+                "c20 driver: the real binary is started with every secret supplied by flag, by WONDERWALL_* variable and (Redis) inside redis.uri; stdout/stderr are searched. non-trivial = a scan report / a launch that supplies a secret.",
+        'level_text': "PARTIAL. Decidable theorems over the regenerated table of ALL log statements and error constructions (270+): no argument mentions a secret-bearing identifier (trusted word list with 3 named exceptions), %+v/%v only on "
+                      "errors / the masked configuration / provider metadata, the start-up banner masks every secret-bearing field incl. redis.uri, request attributes never read header maps, cookie values or raw queries. "
+                      "Runtime monitor over every explored history, schedule and fault sequence and over real start-ups. Third-party libraries' own logging is covered by the monitor only.",
+        'level_note': "Trusted: Lean kernel; the log-site extractor (syntactic: receiver looks like a logger); the classification word list; errors can still carry provider response bodies (5xx text) - not secrets of wonderwall. OpenTelemetry span attributes are outside 'log line'.",
+        'technique': 'Lean 4 decide over the regenerated log/error-site table + process-wide runtime log monitor + real-binary start-up scan',
+        'trusted': ["identifier classification (secretWords / exceptions in Proofs/C18.lean)"],
+        'assumptions': ["classification of identifiers is trusted"],
+    },
+    'C20': {
+        'proofs': ['Ww.Proofs.C20'],
+        'gen_sections': [],
+        'drivers': [{'name': 'c20'}],
+        'reasons': ['C20.'],
+        'class_fields': {'start20': ['key', 'ingress', 'clientid', 'jwk', 'secret', 'wellknown', 'mode', 'redis', 'cookiename', 'serverurl', 'domain', 'defaulturl', 'secure', 'samesite', 'upstream', 'shutdown', 'alg', 'acr', 'locale', 'listening'],
+                         'logscan': ['kind']},
+        'nontrivial': {'logscan': lambda f: False},
+        'rule': "c20 driver: the REAL binary built from the working tree is launched (16 at a time) against a loopback discovery document, JWKS and miniredis with: the valid base configuration, every single deviation of 20 factors "
+                "(also inside both SSO modes), and random 2-3-factor combinations; settings supplied as flags or as WONDERWALL_* variables at random; observation = accepts TCP on the bind address within 4 s vs exits before. distinct = factor vector.",
+        'level_text': "Proof: the model of the start-up chain (Validate: cookie, signing alg, SSO, upstream, shutdown periods; encryption key; client config; discovery metadata; store; ingresses; SSO redirect) reaches 'listen' IF AND ONLY IF the "
+                      "documented rules hold (both directions proved), for every configuration. The chain model is tied to the real binary by launching it across the configuration space; the documented rules are evaluated on each launch.",
+        'level_note': "Trusted: Lean kernel; viper/pflag binding and each parser's verdict on its setting (the model takes 'parses / does not parse' as input; the driver supplies representative texts); provider-specific variables (IDPORTEN_*, AZURE_APP_*) are not in the quick tier.",
+        'technique': 'Lean 4 equivalence proof (validation chain <-> documented rules) + real-binary launches over the configuration space',
+        'trusted': ["viper/pflag binding", "net/url, base64, jwk parsers' verdicts"],
+        'assumptions': ["each setting's parser verdict is an input of the model"],
+    },
 }
